@@ -190,6 +190,23 @@ def near_misses():
     out["outer"] = pt.transform.lower_to_index_lambda.to_index_lambda(pt.einsum("i,j->ij", y, x[:, 0]))
     out["concat3"] = pt.transform.lower_to_index_lambda.to_index_lambda(pt.concatenate([x, x[:2], x], axis=0))
     out["reduce_extra_axis"] = red((var("_0"), var("_r0")), {"_r0": (0, 4)}, x, (3, 2))
+    # a value-changing cast inside / around a full-axis reduction: not the plain reduction of the operand
+    from pytato.scalar_expr import TypeCast
+
+    def redx(expr, bounds, bnd, shape, dtype):
+        return pt.array.IndexLambda(
+            expr=expr, shape=shape, dtype=np.dtype(dtype), bindings=constantdict({"_in0": bnd}),
+            axes=pt.array._get_default_axes(len(shape)), tags=frozenset(), non_equality_tags=frozenset(),
+            var_to_reduction_descr=constantdict({k: pt.array.ReductionDescriptor(frozenset()) for k in bounds}))
+    out["reduce_cast_inner"] = redx(Reduce(TypeCast(np.dtype(np.int64), var("_in0")[var("_0"), var("_r0")]), SumReductionOperation(),
+                                           constantdict({"_r0": (0, 4)})), {"_r0": (0, 4)}, x, (3,), np.int64)
+    out["reduce_cast_outer"] = redx(TypeCast(np.dtype(np.int64), Reduce(var("_in0")[var("_0"), var("_r0")], SumReductionOperation(),
+                                                                       constantdict({"_r0": (0, 4)}))), {"_r0": (0, 4)}, x, (3,), np.int64)
+    # x - y*z written as a flat product with a leading -1: not x - y
+    ij = (var("_0"), var("_1"))
+    out["sub_flat3"] = raw(p.Sum((var("a")[ij], p.Product((-1, var("b")[ij], var("c")[ij])))), {"a": x, "b": x, "c": x}, (3, 4))
+    out["sub_flat3s"] = raw(p.Sum((var("a")[ij], p.Product((-1, var("b")[ij], 2.0)))), {"a": x, "b": x}, (3, 4))
+    out["sub_flat3b"] = raw(p.Sum((var("a")[ij], p.Product((-1, var("b")[(var("_1"),)], var("c")[ij])))), {"a": x, "b": y, "c": x}, (3, 4))
     # a reduction variable the summand never uses: 5 * x[_0, _1], not x
     out["reduce_unused_var"] = red((var("_0"), var("_1")), {"_r0": (0, 5)}, x, (3, 4))
     out["reduce_unused_var2"] = red((var("_0"), var("_r0")), {"_r0": (0, 4), "_r1": (0, 2)}, x, (3,))
